@@ -329,6 +329,11 @@ pub fn check(sc: &ConnScenario, out: &ConnOutcome, rep: &mut RunReport) {
         }
     }
     let timed_out = ticks.iter().any(|t| t.1);
+    // a connection that ends for a missed keep-alive tells the client so, in the configured words (whatever locale
+    // the client reported, or none at all, if it had not sent Client Information yet)
+    if out.result == "MissedKeepAlive" && !timed_out {
+        rep.violate("timeout_disconnect_is_the_configured_message", format!("listen() returned MissedKeepAlive but the client was not sent the configured timeout message: packets {:?}, last Disconnect {:?}", out.view.kinds(), out.view.all("Disconnect").last().map(|p| p.fields["reason"].clone())));
+    }
     if timed_out {
         if out.result != "MissedKeepAlive" {
             rep.violate("timeout_result", format!("timeout Disconnect sent but listen() returned {} {}", out.result, out.result_text));
